@@ -83,6 +83,13 @@ pub fn check_seq(s: &Seq, rec: &mut Rec) -> Verdict {
     if e.is_fail() {
         return e;
     }
+    // a failing call on another thread whose message is never read before that thread ends: the protocol does not
+    // oblige a caller to read it, so whatever the slot holds is released with the thread (seen by the leak check)
+    if k % 2 == 0 {
+        let which = ((k >> 16) & 0xff) as u8;
+        let _ = std::thread::spawn(move || super::capi::failing_call_pub(which)).join();
+        rec.class("unread-error-at-thread-exit");
+    }
     let n = SEQ_COUNT.fetch_add(1, std::sync::atomic::Ordering::Relaxed) + 1;
     let every = LEAK_EVERY.load(std::sync::atomic::Ordering::Relaxed).max(1);
     if n % every == 0 && leak_check() {
